@@ -346,8 +346,10 @@ MANIFEST = {
             "C10_tree_wellformed (the constructors produce well-formed diagrams), C10_sum_wellformed / "
             "C10_restrict_wellformed / C10_update_wellformed (sum, restrict and edge updates keep them well formed), "
             "C10_wellformed_suffices (well-formedness gives every side condition of the theorems above), "
-            "C10_update_semantics -- over an executable Gallina model of AValue / ATally / ADD. "
-            "PARTIAL: stack / concatenate are modelled and tied by correspondence; no theorem about them. Tied to the "
+            "C10_update_semantics; the constructors: C10_eval_concatenate (value at x1++x2++.. = saturating sum of the "
+            "elements' values) + C10_concatenate_wellformed, C10_eval_stack (the factor values select one of the 2^f "
+            "elements, of any diameters, in product order) + C10_stack_wellformed -- over an executable Gallina model "
+            "of AValue / ATally / ADD. Tied to the "
             "code at unit level: diagrams built through the API are dumped and every operation sequence is replayed in "
             "the model; value tables and model counts compared after every step, and against pointwise semantics, in Coq.",
     "note": "Trusted: Coq kernel + vm_compute; harness (dump of nodes/child/adder arrays). Binary candidates only. "
